@@ -13,7 +13,7 @@ import ast
 
 from lcsa.eff import Effects
 from lcsa.model import Undecided, unparse, is_self_attr
-from lcsa import tab
+from lcsa import tab, bind
 from props.common import SEQ, SP, SEQ_PATH
 
 MEMO = {"dmax", "seqDeltaMax"}
@@ -87,13 +87,26 @@ def _eff(ck, prog, E, api):
         ck.ob("EFF-receiver", construct, not bad, expected="writes within {SeqObj.dmax, SeqObj.seqDeltaMax}",
               found={"writes": bad, "sites": sites} if bad else sorted(s.self_writes), slot="writes", where=f.loc(),
               note="a read-only query must not change the stored sequence, the phosphosite list, the palette or anything else")
-        ck.ob("EFF-globals", construct, not s.global_muts, expected="no module-level object written",
-              found={"%s:%s" % k: v[:2] for k, v in s.global_muts.items()}, slot="globals", where=f.loc())
+        gm = dict(s.global_muts)
+        for k in list(gm):
+            # a module-level result table (`if key not in T: T[key] = ...`) is judged by MEMO-KEY: unobservable iff the key determines the value
+            res = [r["verdict"] for r in memo_res if r["site"].scope in ("module", "closure") and r["site"].mod.rel == k[0] and r["site"].table == k[1]]
+            if not res:
+                continue
+            if all(x == "ok" for x in res):
+                del gm[k]
+            elif any(x == "violation" for x in res):
+                gm[k] = list(gm[k]) + ["memo key incomplete"]
+            else:
+                undecided_tables.add("%s:%s" % k)
+                del gm[k]
+        ck.ob("EFF-globals", construct, not gm, expected="no module-level object written (a result table whose key determines the stored value excepted)",
+              found={"%s:%s" % k: v[:2] for k, v in gm.items()}, slot="globals", where=f.loc())
         pm = {p: w for p, w in s.param_muts.items() if not (f.name == "get_linear_sequence_composition" and p == "grps")}
         ck.ob("EFF-arguments", construct, not pm, expected="no caller-supplied argument mutated", found={p: w[:2] for p, w in pm.items()},
               slot="arguments", where=f.loc())
     if undecided_tables:
-        raise Undecided("read-only queries write new field(s) %s whose memo discipline lcsa cannot judge" % sorted(undecided_tables))
+        raise Undecided("read-only queries write new field(s) / module table(s) %s whose memo discipline lcsa cannot judge" % sorted(undecided_tables))
     # unresolved self-calls would hide effects
     unresolved = sorted({u for f in api for u in E.sum[f.key].unresolved})
     ck.ob("EFF-resolution", "localcider/sequenceParameters.py:SequenceParameters", not unresolved, expected="every self.* call resolved",
@@ -186,17 +199,27 @@ def _memo(ck, prog, E):
     for r, guards in early:
         returned = {n.attr for n in ast.walk(r.value) if is_self_attr(n)} & MEMO
         tested = set()
+        unknown_tests = []
         for g, pol in guards:
             if not pol:
                 continue
             for c in ast.walk(g):
                 if isinstance(c, ast.Compare) and is_self_attr(c.left) and c.left.attr in MEMO:
                     op = c.ops[0]
-                    rhs = c.comparators[0]
-                    if c.left.attr == "dmax" and isinstance(op, ast.NotEq) and unparse(rhs) == "-1":
-                        tested.add("dmax")
-                    if c.left.attr == "seqDeltaMax" and isinstance(op, ast.IsNot) and unparse(rhs) == "None":
-                        tested.add("seqDeltaMax")
+                    rhs = unparse(c.comparators[0]).replace(" ", "")
+                    if c.left.attr == "dmax":
+                        if (isinstance(op, ast.NotEq) and rhs == "-1") or (isinstance(op, ast.GtE) and rhs in ("0", "0.0")) or (isinstance(op, ast.Gt) and rhs == "-1"):
+                            tested.add("dmax")
+                        else:
+                            unknown_tests.append(unparse(c))
+                    if c.left.attr == "seqDeltaMax":
+                        if (isinstance(op, ast.IsNot) and rhs == "None") or (isinstance(op, ast.NotEq) and rhs == "None"):
+                            tested.add("seqDeltaMax")
+                        else:
+                            unknown_tests.append(unparse(c))
+                elif isinstance(c, ast.Attribute) and is_self_attr(c) and c.attr == "seqDeltaMax" and isinstance(g, ast.BoolOp) and any(v is c for v in g.values):
+                    tested.add("seqDeltaMax")       # truthiness of the permutant string
+        ck.shape(returned <= tested or not unknown_tests, "deltaMax: cache test(s) %s in a form lcsa does not recognise" % unknown_tests, f.loc(r))
         ck.ob("MEMO-M1", construct, returned <= tested, expected="hit-guard tests 'computed' for %s" % sorted(returned),
               found=sorted(tested), slot="early-return@%s" % unparse(r.value)[:40], where=f.loc(r))
     ck.count("memo early returns", len(early))
@@ -343,7 +366,86 @@ def _fresh_ctors(ck, prog):
 
 
 # ----------------------------------------------------------------------------------------- ALIAS
+IMMUTABLE_CALLS = {"int", "float", "str", "len", "round", "abs", "min", "max", "sum", "bool", "tuple", "frozenset"}
+MUTABLE_CALLS = {"list", "dict", "set", "np.array", "np.zeros", "np.vstack", "np.arange", "np.asarray", "sorted", "bytearray"}
+
+
+def _immutable_result(prog, f, node, depth=0):
+    """True: certainly an immutable value (number, str, None, tuple of those); False: certainly a mutable container; None: unknown"""
+    if depth > 6 or node is None:
+        return None
+    if isinstance(node, ast.Constant):
+        return True
+    if isinstance(node, (ast.List, ast.Dict, ast.Set, ast.ListComp, ast.DictComp, ast.SetComp)):
+        return False
+    if isinstance(node, (ast.Compare, ast.BoolOp, ast.JoinedStr)) or (isinstance(node, ast.UnaryOp) and isinstance(node.op, ast.Not)):
+        return True
+    if isinstance(node, ast.Tuple):
+        ks = [_immutable_result(prog, f, e, depth + 1) for e in node.elts]
+        return False if False in ks else (None if None in ks else True)
+    if isinstance(node, ast.Call):
+        fn = unparse(node.func)
+        if fn in IMMUTABLE_CALLS:
+            return True
+        if fn in MUTABLE_CALLS:
+            return False
+        callee = prog.resolve_call(f, node) if f is not None else None
+        if callee is None:
+            return None
+        ks = [_immutable_result(prog, callee, r.value, depth + 1) for r in bind.returns_of(callee)]
+        if not ks:
+            return True            # returns None
+        return False if False in ks else (None if None in ks else True)
+    if isinstance(node, ast.Name) and f is not None:
+        if node.id in f.params():
+            return None
+        vals = [n.value for n in ast.walk(f.node) if isinstance(n, ast.Assign) and len(n.targets) == 1 and isinstance(n.targets[0], ast.Name) and n.targets[0].id == node.id]
+        other = [n for n in ast.walk(f.node) if not isinstance(n, ast.Assign) and hasattr(n, "target") and any(isinstance(x, ast.Name) and x.id == node.id for x in ast.walk(n.target))]
+        if not vals or other:
+            return None
+        ks = {_immutable_result(prog, f, v, depth + 1) for v in vals}
+        return False if ks == {False} else (True if ks == {True} else None)
+    if isinstance(node, ast.BinOp):
+        ks = [_immutable_result(prog, f, node.left, depth + 1), _immutable_result(prog, f, node.right, depth + 1)]
+        return True if ks == [True, True] else (False if False in ks else None)
+    if isinstance(node, ast.IfExp):
+        ks = [_immutable_result(prog, f, node.body, depth + 1), _immutable_result(prog, f, node.orelse, depth + 1)]
+        return False if False in ks else (None if None in ks else True)
+    return None
+
+
+def _table_element(ck, prog, f, o, tabs):
+    """the origin is a result table (`T[key] = value` ... `T[key]`).  What reaches the caller is a stored element (or something unpacked / copied from
+    it), shared with every later caller: harmless when the stored values are immutable, a violation when a certainly mutable stored value is handed
+    out as it is, undecided otherwise (the effect summaries do not see inside stored tuples)."""
+    kinds = set()
+    direct = True
+    for t in tabs:
+        g = prog.mods[t.mod.rel].funcs.get((t.cls + "." if t.cls else "") + t.fnode.name)
+        kinds.add(_immutable_result(prog, g, t.value))
+        name = t.table
+        for r in bind.returns_of(g):
+            v = r.value
+            if v is None:
+                continue
+            if isinstance(v, ast.Name) and v.id == name or (isinstance(v, ast.Attribute) and v.attr == name):
+                return False            # the table itself escapes
+            if not (isinstance(v, ast.Subscript) and unparse(v.value).split(".")[-1] == name):
+                direct = False
+    if kinds == {True}:
+        return True
+    if False in kinds and direct:
+        return False
+    raise Undecided("an element of result table %s reaches the result of %s: cannot tell whether mutable storage is shared" % (o, f.qual), f.loc())
+
+
+def _returns_table_itself(f, name):
+    return any(isinstance(r.value, ast.Name) and r.value.id == name for r in bind.returns_of(f) if r.value is not None)
+
+
 def _alias(ck, prog, E, api):
+    from lcsa import memo
+    tables = memo.find_sites(prog)
     global_mutables = set()
     for m in prog.mods.values():
         for name, val in m.globals.items():
@@ -357,11 +459,17 @@ def _alias(ck, prog, E, api):
                 continue
             if o.startswith("global:"):
                 if o in global_mutables:
+                    tabs = [t for t in tables if t.scope == "module" and "global:%s:%s" % (t.mod.rel, t.table) == o]
+                    if tabs and _table_element(ck, prog, f, o, tabs):
+                        continue
                     bad.append(o)
                 continue
             parts = o.split(".")
             if parts[0] == "self" and len(parts) >= 3 and parts[1] == "SeqObj":
                 if parts[2] in IMMUTABLE_VALUED:
+                    continue
+                tabs = [t for t in tables if t.scope == "object" and t.cls == "Sequence" and t.table == parts[2]]
+                if tabs and len(parts) == 3 and _table_element(ck, prog, f, o, tabs):
                     continue
                 bad.append(o)
             elif o in ("self", "self.SeqObj"):
